@@ -146,126 +146,20 @@ fn compare_parts(
     }
 }
 
-pub fn run(ctx: &Ctx) -> Report {
-    crate::env::set_log_mode(crate::env::LOG_OFF);
-    let thorough = ctx.tier.thorough();
-    let hs = header_sets();
-    let versions = [http::Version::HTTP_09, http::Version::HTTP_10, http::Version::HTTP_11, http::Version::HTTP_2, http::Version::HTTP_3];
-    let n_resp: u64 = 12;
-    // uri forms: origin, origin with escapes + query spellings, absolute-form
-    let total = METHODS.len() as u64 * versions.len() as u64 * hs.len() as u64 * 3 * 3 * 2 * n_resp * 3;
-    let stride: u64 = 1;
-    let _ = thorough;
-    let now = e2e::base_instant();
-    let st = par_sweep(total, |i, st| {
-        if i % stride != 0 {
-            return;
-        }
-        let mut x = i;
-        let opt = x % 3; // default, s3, fold
-        x /= 3;
-        let resp = x % n_resp;
-        x /= n_resp;
-        let carrier = if x % 2 == 0 { Carrier::Header } else { Carrier::Query };
-        x /= 2;
-        let uri_form = x % 3;
-        x /= 3;
-        let body_kind = x % 3; // 0: (), 1: Vec<u8>, 2: Bytes
-        x /= 3;
-        let hset = &hs[(x % hs.len() as u64) as usize];
-        x /= hs.len() as u64;
-        let version = versions[(x % versions.len() as u64) as usize];
-        x /= versions.len() as u64;
-        let method = METHODS[x as usize];
+const N_RESP: u64 = 12;
+/// body lengths around the sizes at which buffering / previewing code changes behaviour
+const BODY_SIZES: [usize; 7] = [11, 255, 256, 257, 1000, 4096, 65537];
+const VERSIONS: [http::Version; 5] = [http::Version::HTTP_09, http::Version::HTTP_10, http::Version::HTTP_11, http::Version::HTTP_2, http::Version::HTTP_3];
 
-        let mut plan = e2e::base_plan(carrier);
-        plan.method = method.into();
-        plan.headers.extend(hset.iter().cloned());
-        if !hset.is_empty() {
-            plan.signed.push(hset[0].0.to_ascii_lowercase());
-        }
-        let body: Vec<u8> = if body_kind == 0 { vec![] } else { b"pa\x00yload \xff".to_vec() };
-        plan.body = body.clone();
-        match uri_form {
-            0 => {}
-            1 => {
-                plan.segs = vec![b"a b".to_vec(), b"c".to_vec()];
-                plan.trailing_slash = true;
-                plan.wire_path = Some("/a%20b/%63/".into());
-                plan.url_params = vec![(b"k".to_vec(), b"v w".to_vec()), (b"a".to_vec(), b"".to_vec())];
-                plan.wire_query = Some("k=v+w&&a".into());
-            }
-            _ => {
-                plan.segs = vec![b"abs".to_vec()];
-                plan.url_params = vec![(b"q".to_vec(), b"1".to_vec())];
-            }
-        }
-        let built = build(&plan);
-        let mut wire = WireReq::from_wire(&built.wire);
-        if uri_form == 2 {
-            wire.uri = format!("http://example.amazonaws.com{}", wire.uri);
-        }
-        let mut cfg = Cfg::basic(now);
-        cfg.s3 = opt == 1;
-        cfg.fold = opt == 2;
-        let p = principal(resp % 4);
-        let sd = session(resp / 4);
-        let mut provider = provider_with(p.clone(), sd.clone());
-        let mut req = match wire.to_http() {
-            Ok(r) => r,
-            Err(_) => {
-                st.note("unbuildable");
-                return;
-            }
-        };
-        *req.version_mut() = version;
-        req.extensions_mut().insert(Marker(7));
-        let submitted = {
-            let mut c = wire.to_http().unwrap();
-            *c.version_mut() = version;
-            c
-        };
-        st.evaluations += 1;
-        st.transitions += 1;
-        st.validated += 1;
-        st.nontrivial(&(&wire, i % (n_resp * 3), format!("{:?}", version), body_kind));
-        let result = match body_kind {
-            0 => sut::validate_http(req.map(|_| ()), &cfg, &mut provider, 64),
-            1 => sut::validate_http(req.map(|b| b.to_vec()), &cfg, &mut provider, 64),
-            _ => sut::validate_http(req, &cfg, &mut provider, 64),
-        };
-        st.outcome(&result.label());
-        let case = json!({"e2e": crate::e2e::Case { wire: wire.clone(), cfg: cfg.clone(), prov: ProvSpec::standard() }, "version": format!("{:?}", version), "body_type": body_kind, "principal": resp % 4, "session": resp / 4});
-        match &result {
-            SutResult::Ok(ok) => {
-                compare_parts(i, st, "plain", &submitted, ok, None, case.clone());
-                st.state(&(format!("{:?}", ok.response.principal()), ok.response.session_data().len()));
-                if *ok.response.principal() != p || *ok.response.session_data() != sd {
-                    st.violation(Violation {
-                        index: i,
-                        what: "identity-not-passed-through".into(),
-                        case,
-                        expected: format!("{:?} / {:?}", p, sd),
-                        observed: format!("{:?} / {:?}", ok.response.principal(), ok.response.session_data()),
-                        known: None,
-                    });
-                }
-            }
-            other => {
-                st.violation(Violation {
-                    index: i,
-                    what: "reference-signed-request-refused".into(),
-                    case,
-                    expected: "Ok".into(),
-                    observed: other.label(),
-                    known: None,
-                });
-            }
-        }
-        st.sample(i, total, || json!({"method": method, "version": format!("{:?}", version), "uri": wire.uri, "headers": wire.headers.len(), "body_type": (["()", "Vec<u8>", "Bytes"][body_kind as usize]), "option": opt}));
-    });
+fn plain_total() -> u64 {
+    METHODS.len() as u64 * VERSIONS.len() as u64 * header_sets().len() as u64 * 3 * 3 * 2 * N_RESP * 3 * BODY_SIZES.len() as u64
+}
 
-    // folded requests: body empty, URI query = merged multiset
+fn level_name() -> String {
+    format!("{:?}", log::max_level())
+}
+
+fn fold_lists() -> (Vec<Vec<(Vec<u8>, Vec<u8>)>>, Vec<Vec<(Vec<u8>, Vec<u8>)>>) {
     let url_lists: Vec<Vec<(Vec<u8>, Vec<u8>)>> = vec![
         vec![],
         vec![(b"a".to_vec(), b"1".to_vec())],
@@ -277,76 +171,267 @@ pub fn run(ctx: &Ctx) -> Report {
         vec![(b"c".to_vec(), "ü/".as_bytes().to_vec()), (b"a".to_vec(), b"1".to_vec())],
         vec![(b"".to_vec(), b"".to_vec()), (b"b".to_vec(), b"".to_vec())],
     ];
-    let n_f = (url_lists.len() * body_lists.len() * 2 * 2 * 3) as u64;
-    let st_f = par_sweep(n_f, |i, st| {
-        let mut x = i;
-        let carrier = if x % 2 == 0 { Carrier::Header } else { Carrier::Query };
-        x /= 2;
-        let s3 = x % 2 == 1;
-        x /= 2;
-        let pathk = x % 3;
-        x /= 3;
-        let bl = &body_lists[(x % body_lists.len() as u64) as usize];
-        x /= body_lists.len() as u64;
-        let ul = &url_lists[x as usize];
-        let mut plan = e2e::base_plan(carrier);
-        plan.method = "POST".into();
-        plan.url_params = ul.clone();
-        plan.body = refmodel::sign::spell_query(bl).into_bytes();
-        plan.body_params = Some(bl.clone());
-        plan.headers.push(("Content-Type".into(), b"application/x-www-form-urlencoded".to_vec()));
-        plan.signed.push("content-type".into());
-        if pathk >= 1 {
-            plan.segs = vec![b"f o".to_vec(), b"x".to_vec()];
-            plan.wire_path = Some(if pathk == 1 { "/f%20o/x".into() } else { "/f%20o/%78".into() });
+    (url_lists, body_lists)
+}
+
+fn folded_total() -> u64 {
+    let (u, b) = fold_lists();
+    (u.len() * b.len() * 2 * 2 * 3) as u64
+}
+
+/// One element of the main product (under whatever logger configuration is current).
+fn one_plain(i: u64, hs: &[Vec<(String, Vec<u8>)>], st: &mut Stats) {
+    let versions = VERSIONS;
+    let now = e2e::base_instant();
+    env::FORMAT_LOGS.with(|f| f.set(true));
+    let mut x = i;
+    let opt = x % 3; // default, s3, fold
+    x /= 3;
+    let size = BODY_SIZES[(x % BODY_SIZES.len() as u64) as usize];
+    x /= BODY_SIZES.len() as u64;
+    let resp = x % N_RESP;
+    x /= N_RESP;
+    let carrier = if x % 2 == 0 { Carrier::Header } else { Carrier::Query };
+    x /= 2;
+    let uri_form = x % 3;
+    x /= 3;
+    let body_kind = x % 3; // 0: (), 1: Vec<u8>, 2: Bytes
+    x /= 3;
+    let hset = &hs[(x % hs.len() as u64) as usize];
+    x /= hs.len() as u64;
+    let version = versions[(x % versions.len() as u64) as usize];
+    x /= versions.len() as u64;
+    let method = METHODS[x as usize];
+
+    let mut plan = e2e::base_plan(carrier);
+    plan.method = method.into();
+    plan.headers.extend(hset.iter().cloned());
+    if !hset.is_empty() {
+        plan.signed.push(hset[0].0.to_ascii_lowercase());
+    }
+    if body_kind == 0 && size != BODY_SIZES[0] {
+        return; // the unit body is always empty
+    }
+    let body: Vec<u8> = if body_kind == 0 { vec![] } else { b"pa\x00yload \xff".iter().cycle().take(size).cloned().collect() };
+    plan.body = body.clone();
+    match uri_form {
+        0 => {}
+        1 => {
+            plan.segs = vec![b"a b".to_vec(), b"c".to_vec()];
+            plan.trailing_slash = true;
+            plan.wire_path = Some("/a%20b/%63/".into());
+            plan.url_params = vec![(b"k".to_vec(), b"v w".to_vec()), (b"a".to_vec(), b"".to_vec())];
+            plan.wire_query = Some("k=v+w&&a".into());
         }
-        let built = build(&plan);
-        let wire = WireReq::from_wire(&built.wire);
-        let mut cfg = Cfg::basic(now);
-        cfg.fold = true;
-        cfg.s3 = s3;
-        let mut provider = provider_with(principal(1), session(1));
-        let req = wire.to_http().unwrap();
-        let submitted = wire.to_http().unwrap();
-        st.evaluations += 1;
-        st.transitions += 1;
-        st.validated += 1;
-        st.nontrivial(&(&wire, s3, "fold"));
-        let result = sut::validate_http(req, &cfg, &mut provider, 64);
-        st.outcome(&format!("fold:{}", result.label()));
-        let mut merged = ul.clone();
-        if carrier == Carrier::Query {
-            // the X-Amz-* parameters are URL parameters too
-            merged = parse_query(built.wire.query.as_deref().unwrap_or("")).unwrap();
+        _ => {
+            plan.segs = vec![b"abs".to_vec()];
+            plan.url_params = vec![(b"q".to_vec(), b"1".to_vec())];
         }
-        merged.extend(bl.iter().cloned());
-        let case = json!({"e2e": crate::e2e::Case { wire: wire.clone(), cfg: cfg.clone(), prov: ProvSpec::standard() }});
-        match &result {
-            SutResult::Ok(ok) => compare_parts(total + i, st, "folded", &submitted, ok, Some(&merged), case),
-            other => st.violation(Violation {
-                index: total + i,
-                what: "reference-signed-folded-request-refused".into(),
+    }
+    let built = build(&plan);
+    let mut wire = WireReq::from_wire(&built.wire);
+    if uri_form == 2 {
+        wire.uri = format!("http://example.amazonaws.com{}", wire.uri);
+    }
+    let mut cfg = Cfg::basic(now);
+    cfg.s3 = opt == 1;
+    cfg.fold = opt == 2;
+    let p = principal(resp % 4);
+    let sd = session(resp / 4);
+    let mut provider = provider_with(p.clone(), sd.clone());
+    let mut req = match wire.to_http() {
+        Ok(r) => r,
+        Err(_) => {
+            st.note("unbuildable");
+            return;
+        }
+    };
+    *req.version_mut() = version;
+    req.extensions_mut().insert(Marker(7));
+    let submitted = {
+        let mut c = wire.to_http().unwrap();
+        *c.version_mut() = version;
+        c
+    };
+    st.evaluations += 1;
+    st.transitions += 1;
+    st.validated += 1;
+    st.nontrivial(&(&wire.method, &wire.uri, &wire.headers, wire.body.len(), i % (N_RESP * 3), format!("{:?}", version), body_kind, log::max_level() as usize));
+    let result = match body_kind {
+        0 => sut::validate_http(req.map(|_| ()), &cfg, &mut provider, 64),
+        1 => sut::validate_http(req.map(|b| b.to_vec()), &cfg, &mut provider, 64),
+        _ => sut::validate_http(req, &cfg, &mut provider, 64),
+    };
+    st.outcome(&result.label());
+    let case = json!({"c15": "plain", "index": i, "log_level": level_name(), "method": method, "uri": wire.uri, "body_len": wire.body.len(), "option": opt, "version": format!("{:?}", version), "body_type": body_kind, "principal": resp % 4, "session": resp / 4});
+    match &result {
+        SutResult::Ok(ok) => {
+            compare_parts(i, st, "plain", &submitted, ok, None, case.clone());
+            st.state(&(format!("{:?}", ok.response.principal()), ok.response.session_data().len()));
+            if *ok.response.principal() != p || *ok.response.session_data() != sd {
+                st.violation(Violation {
+                    index: i,
+                    what: "identity-not-passed-through".into(),
+                    case,
+                    expected: format!("{:?} / {:?}", p, sd),
+                    observed: format!("{:?} / {:?}", ok.response.principal(), ok.response.session_data()),
+                    known: None,
+                });
+            }
+        }
+        other => {
+            st.violation(Violation {
+                index: i,
+                what: "reference-signed-request-refused".into(),
                 case,
                 expected: "Ok".into(),
                 observed: other.label(),
                 known: None,
-            }),
+            });
         }
-    });
-    let st = st.merge(st_f);
+    }
+    st.sample(i, plain_total(), || json!({"method": method, "version": format!("{:?}", version), "uri": wire.uri, "headers": wire.headers.len(), "body_type": (["()", "Vec<u8>", "Bytes"][body_kind as usize]), "body_len": size, "option": opt, "log_level": level_name()}));
+}
+
+/// One folded form request.
+fn one_folded(i: u64, url_lists: &[Vec<(Vec<u8>, Vec<u8>)>], body_lists: &[Vec<(Vec<u8>, Vec<u8>)>], st: &mut Stats) {
+    let now = e2e::base_instant();
+    env::FORMAT_LOGS.with(|f| f.set(true));
+    let mut x = i;
+    let carrier = if x % 2 == 0 { Carrier::Header } else { Carrier::Query };
+    x /= 2;
+    let s3 = x % 2 == 1;
+    x /= 2;
+    let pathk = x % 3;
+    x /= 3;
+    let bl = &body_lists[(x % body_lists.len() as u64) as usize];
+    x /= body_lists.len() as u64;
+    let ul = &url_lists[x as usize];
+    let mut plan = e2e::base_plan(carrier);
+    plan.method = "POST".into();
+    plan.url_params = ul.clone();
+    plan.body = refmodel::sign::spell_query(bl).into_bytes();
+    plan.body_params = Some(bl.clone());
+    plan.headers.push(("Content-Type".into(), b"application/x-www-form-urlencoded".to_vec()));
+    plan.signed.push("content-type".into());
+    if pathk >= 1 {
+        plan.segs = vec![b"f o".to_vec(), b"x".to_vec()];
+        plan.wire_path = Some(if pathk == 1 { "/f%20o/x".into() } else { "/f%20o/%78".into() });
+    }
+    let built = build(&plan);
+    let wire = WireReq::from_wire(&built.wire);
+    let mut cfg = Cfg::basic(now);
+    cfg.fold = true;
+    cfg.s3 = s3;
+    let mut provider = provider_with(principal(1), session(1));
+    let req = wire.to_http().unwrap();
+    let submitted = wire.to_http().unwrap();
+    st.evaluations += 1;
+    st.transitions += 1;
+    st.validated += 1;
+    st.nontrivial(&(&wire, s3, "fold", log::max_level() as usize));
+    let result = sut::validate_http(req, &cfg, &mut provider, 64);
+    st.outcome(&format!("fold:{}", result.label()));
+    let mut merged = ul.clone();
+    if carrier == Carrier::Query {
+        // the X-Amz-* parameters are URL parameters too
+        merged = parse_query(built.wire.query.as_deref().unwrap_or("")).unwrap();
+    }
+    merged.extend(bl.iter().cloned());
+    let case = json!({"c15": "folded", "index": i, "log_level": level_name(), "uri": wire.uri, "body": String::from_utf8_lossy(&wire.body)});
+    match &result {
+        SutResult::Ok(ok) => compare_parts(plain_total() + i, st, "folded", &submitted, ok, Some(&merged), case),
+        other => st.violation(Violation {
+            index: plain_total() + i,
+            what: "reference-signed-folded-request-refused".into(),
+            case,
+            expected: "Ok".into(),
+            observed: other.label(),
+            known: None,
+        }),
+    }
+}
+
+pub fn run(ctx: &Ctx) -> Report {
+    let thorough = ctx.tier.thorough();
+    let hs = header_sets();
+    let (url_lists, body_lists) = fold_lists();
+    let total = plain_total();
+    let n_f = folded_total();
+    // the whole product once per logger configuration: nothing installed / every maximum level with a logger
+    // that formats each record (a record's arguments are evaluated whenever the level admits it)
+    let levels: Vec<log::LevelFilter> = if thorough {
+        vec![log::LevelFilter::Off, log::LevelFilter::Error, log::LevelFilter::Warn, log::LevelFilter::Info, log::LevelFilter::Debug, log::LevelFilter::Trace]
+    } else {
+        vec![log::LevelFilter::Off, log::LevelFilter::Debug, log::LevelFilter::Trace]
+    };
+    // quick: every body size with every (option, carrier, body type, URI form, response) but a third of the
+    // (method, version, header set) combinations per level
+    let mut st = Stats::new();
+    for (li, lvl) in levels.iter().enumerate() {
+        if *lvl == log::LevelFilter::Off {
+            env::set_log_mode(env::LOG_OFF);
+        } else {
+            env::set_log_mode_level(env::LOG_FORMAT, *lvl);
+        }
+        let inner = 3 * BODY_SIZES.len() as u64 * N_RESP * 2 * 3 * 3;
+        let part = par_sweep(total, |i, st| {
+            if !thorough && (i / inner) % 3 != (li as u64) % 3 {
+                return;
+            }
+            one_plain(i, &hs, st)
+        });
+        st = st.merge(part);
+        let part = par_sweep(n_f, |i, st| one_folded(i, &url_lists, &body_lists, st));
+        st = st.merge(part);
+    }
+    env::set_log_mode(env::LOG_OFF);
 
     Report {
         stats: st,
         rule: format!(
-            "accepted (reference-signed) requests: 11 methods (incl. extension methods) x 5 HTTP versions x 4 header multisets (repeated names, non-UTF-8 and empty values, mixed-case names) x body types (), Vec<u8>, Bytes x 3 URI forms (origin, origin with escapes / '+' / '&&', absolute-form) x carrier x 4 principals x 3 session data x {{default, S3, fold}} (every {}th combination); returned method, version, URI, header names/values/multiplicity/per-name order, body bytes and principal/session data compared with what was submitted / supplied; plus {} folded form requests (URL x body parameter lists x path spelling x S3 x carrier): body empty and returned query multiset = URL ⊎ body. states = distinct (principal, session size) returned; Extensions marker recorded, not judged",
-            stride, n_f
+            "accepted (reference-signed) requests: 11 methods (incl. extension methods) x 5 HTTP versions x 4 header multisets (repeated names, non-UTF-8 and empty values, mixed-case names) x body types (), Vec<u8>, Bytes x {} body lengths (11 .. 65537 bytes, around 256) x 3 URI forms (origin, origin with escapes / '+' / '&&', absolute-form) x carrier x 4 principals x 3 session data x {{default, S3, fold}}, the whole product once per logger configuration {:?} (no logger output, or a logger that formats every record at that maximum level{}); returned method, version, URI, header names/values/multiplicity/per-name order, body bytes and principal/session data compared with what was submitted / supplied; plus {} folded form requests (URL x body parameter lists x path spelling x S3 x carrier) per logger configuration: body empty and returned query multiset = URL ⊎ body. states = distinct (principal, session size) returned; Extensions marker recorded, not judged",
+            BODY_SIZES.len(), levels, if thorough { "" } else { "; quick tier: each level covers a different third of the (method, version, header set) combinations, all other dimensions in full" }, n_f
         ),
-        bounds: json!({"combinations": total, "stride": stride, "folded": n_f}),
-        exhaustive: stride == 1,
+        bounds: json!({"combinations_per_level": total, "levels": levels.len(), "folded": n_f}),
+        exhaustive: true,
         assumptions: vec![
             "path and authority of a folded URI are not constrained by the statement and are not compared".into(),
-            if stride == 1 { "full product".into() } else { format!("quick tier enumerates every {}th element of the product (a fixed arithmetic stride, not a sample)", stride) },
         ],
         extra: json!({}),
+    }
+}
+
+pub fn replay(case: &serde_json::Value) -> i32 {
+    let lvl = match case["log_level"].as_str().unwrap_or("Off") {
+        "Error" => log::LevelFilter::Error,
+        "Warn" => log::LevelFilter::Warn,
+        "Info" => log::LevelFilter::Info,
+        "Debug" => log::LevelFilter::Debug,
+        "Trace" => log::LevelFilter::Trace,
+        _ => log::LevelFilter::Off,
+    };
+    if lvl == log::LevelFilter::Off {
+        env::set_log_mode(env::LOG_OFF);
+    } else {
+        env::set_log_mode_level(env::LOG_FORMAT, lvl);
+    }
+    let i = case["index"].as_u64().unwrap_or(0);
+    let mut st = Stats::new();
+    if case["c15"] == "folded" {
+        let (u, b) = fold_lists();
+        one_folded(i, &u, &b, &mut st);
+    } else {
+        one_plain(i, &header_sets(), &mut st);
+    }
+    println!("case: {}", case);
+    for v in &st.violations {
+        println!("{}: expected {} observed {}", v.what, v.expected, v.observed);
+    }
+    if st.violations.is_empty() {
+        println!("agrees");
+        0
+    } else {
+        1
     }
 }
